@@ -350,6 +350,7 @@ func (cs *ContractSet) ParseContractFile(path, pkgPath string) error {
 			cur = &Contract{Key: key, IsIface: kw == "iface", Loops: map[int]*LoopContract{}, File: path, Line: l.line, PkgPath: pkgPath}
 			if pkgPath == "" {
 				cur.Trusted = true
+				cur.PkgPath = pkgOfKey(key)
 			}
 			if _, dup := cs.Funcs[key]; dup {
 				errf(l, "duplicate contract for %s", key)
@@ -424,6 +425,10 @@ func (cs *ContractSet) ParseContractFile(path, pkgPath string) error {
 		case "trusted":
 			if cur != nil {
 				cur.Trusted = true
+			}
+		case "verified":
+			if cur != nil {
+				cur.Trusted = false
 			}
 		case "inline":
 			if cur != nil {
@@ -614,3 +619,13 @@ func isQualified(key string) bool {
 
 // single-element import paths that may qualify names in contract files
 var pkgLike = map[string]bool{"bytes": true, "sort": true, "sync": true, "fmt": true, "errors": true, "math": true, "time": true, "strings": true, "context": true}
+
+func pkgOfKey(key string) string {
+	if i := strings.Index(key, ".("); i > 0 {
+		return key[:i]
+	}
+	if i := strings.LastIndex(key, "."); i > 0 {
+		return key[:i]
+	}
+	return ""
+}
